@@ -785,6 +785,8 @@ PARTS = {
                 oracles=ORACLES_C02, trusted_base=SRC_LEAF_TRUSTED),
     "C03": dict(COMMON, coq_props=["Properties_C03_dfg"], generate=generate_C03, oracles=ORACLES_C03),
     "C13": dict(COMMON, coq_props=["Properties_C13_dfg"], generate=generate_C13, oracles=ORACLES_C13),
-    "C16": dict(COMMON, coq_props=["Properties_C16_dfg", "Properties_C16_dfg_src"], generate=generate_C16,
-                oracles=ORACLES_C16, trusted_base=SRC_LEAF_TRUSTED),
+    # Properties_C16_dfg_hdr_src: the header accessors of src/varintFOR.c regenerated from the current source
+    # (gen/c2coq_hdr.py -> coq/gen/Src_hdr_for.v), proved equal to the hand model in HdrSrcFOR.v
+    "C16": dict(COMMON, coq_props=["Properties_C16_dfg", "Properties_C16_dfg_src", "Properties_C16_dfg_hdr_src"],
+                generate=generate_C16, oracles=ORACLES_C16, trusted_base=SRC_LEAF_TRUSTED),
 }
